@@ -243,8 +243,10 @@ theorem shard_of_precond_l (par : Par) (mp primary i rows wcols : Nat) (w : List
       cases b with
       | none => simp [hR]
       | some bs =>
-        simp only [hR, hB]
+        simp only [hR]
         simp
+        rw [← List.getD_eq_getElem?_getD]
+        exact hB _ _
 
 theorem factor_shapes_unsharded_l (mp fullIn fullOut : Nat) (hasBias : Bool) (_hmp : 0 < mp)
     (hin : mp ∣ fullIn) (hout : mp ∣ fullOut) :
